@@ -563,6 +563,8 @@ def c05(ck):
         lid, a = rng.choice(LANG_IDS), rng.choice(COINS_BOUNDARY + [rng.below(2048)])
         b = rng.choice([a ^ 1, a ^ 1024, (a + 1) % 2048, rng.below(2048)])
         s.add("encode", 0, lid, a, 1)
+        # (the clock means nothing to a decoder: it may read before, at or after the seed's birthday)
+        s.add("env", "time=%d" % rng.choice([EPOCH, EPOCH + 2 * STEP, 0, EPOCH + 1023 * STEP]), "libctime=%d" % EPOCH)
         for how in ("decodex", "decode"):
             if how == "decodex":
                 s.add("decodex", 1, a, lid, 1)
@@ -662,6 +664,17 @@ def c06(ck):
             s2 = bytearray(sec); s2[18] = (s2[18] & 63) | (v & 0xC0)
             chk = codec.words_of(bytes(s2[:18]) + bytes([s2[18] & 63]), bday, feats)[0]
             bufs.append(codec.image(bytes(s2), bday, feats, chk))
+        # the two 16-bit fields are little-endian: the same image with either or both written the other way round
+        for sw in ((8,), (30,), (8, 30)):
+            b = bytearray(img)
+            for q in sw:
+                b[q], b[q + 1] = b[q + 1], b[q]
+            bufs.append(bytes(b))
+        for _ in range(40 if quick else 400):
+            b = bytearray(codec.image(rand_secret(rng), rng.below(1024), rng.choice([0, 5, 16, 21])))
+            for q in rng.choice([(8,), (30,), (8, 30)]):
+                b[q], b[q + 1] = b[q + 1], b[q]
+            bufs.append(bytes(b))
         for f in range(32):     # every feature value, with matching and with off-by-one check value
             chk = codec.words_of(sec, bday, f)[0]
             bufs.append(codec.image(sec, bday, f, chk))
@@ -895,6 +908,9 @@ def c08(ck):
                 if quick and (i + ck.seed) % 8:
                     continue
                 t = {w, w + "あ".encode(), w + w[-3:]}
+                if lid == "jp":
+                    # the same word in the other syllabary is another token (hiragana U+3041..3096 <-> katakana U+30A1..30F6)
+                    t.add("".join(chr(ord(c) + 0x60) if 0x3041 <= ord(c) <= 0x3096 else c for c in w.decode("utf-8")).encode())
                 for n in range(1, len(cs)):
                     t.add("".join(c[0] + c[1] for c in cs[:n]).encode())
                 toks[lid] += sorted(t)
@@ -913,6 +929,20 @@ def c08(ck):
             parts, count, lo, hi = 1, (1 << 14 if quick else 1 << 17), 1, 9
         for part in range(parts):
             ck.add(Exec("sweep-%s-%d" % (lid, part), ["findsweep %s %d %d %d %d" % (lid, ck.seed * 1000 + part, count, lo, hi)]))
+    # the other syllabary is another spelling, not the same word: whole Japanese phrases with one word in katakana
+    s = Script()
+    s.add("enable", 0)
+    for n in range(8 if quick else 100):
+        idx = rand_idx(rng)
+        words = [codec.lang("jp")["wcb"][i].decode("utf-8") for i in idx]
+        p_ = rng.below(16)
+        words[p_] = "".join(chr(ord(c) + 0x60) if 0x3041 <= ord(c) <= 0x3096 else c for c in words[p_])
+        r = s.string("\u3000".join(words).encode("utf-8"))
+        s.add("decodex", r, 0, "jp", 1)
+        s.add("free", 1)
+        s.add("decode", r, 0, 1)
+        s.add("free", 1)
+    ck.add(Exec("katakana-respelling", s.lines))
     # whole phrases through the real normaliser: an independent variant per position
     for lid in LANG_IDS:
         L = codec.lang(lid)
@@ -2517,8 +2547,12 @@ def exit_path_scripts(rng, tag):
     def unsupported(s):
         for feats in (8, 1, 24, 31):
             for lid in ("en", "es", "ko"):
-                r = s.string(codec.phrase(lid, rand_idx(rng, features=feats)))
+                idx_ = rand_idx(rng, features=feats)
+                r = s.string(codec.phrase(lid, idx_))
+                sec_ = codec.seed_of_words(idx_, 0)[0]
+                s.add("needle", hx(sec_))          # the secret a refused phrase carries is a secret all the same
                 s.add("decode", r, 0, 1)
+                s.add("needle", hx(sec_))
                 s.add("decodex", r, 0, lid, 1)
             b = s.buf(codec.image(rand_secret(rng), rng.below(1024), feats))
             s.add("load", b, 1)
